@@ -157,6 +157,21 @@ func genCase(rt *rapid.T, run *ev.Run) *Case {
 }
 
 const knownErrSugar = "C09-errsugar-blame"
+const knownBottomUp = "C09-blame-bottom-up-order"
+
+// deliveredLater: an Error carrying token fb was delivered, and every Error
+// delivered before it carries a later token.
+func deliveredLater(errToks []int, fb int) bool {
+	for i, t := range errToks {
+		if t == fb {
+			return i > 0
+		}
+		if t < fb {
+			return false
+		}
+	}
+	return false
+}
 
 func hasErrSugar(g *cfgm.G) bool {
 	for _, r := range g.Rules {
@@ -320,6 +335,12 @@ func eval(run *ev.Run, cases []*Case, count bool) ([]verdict, error) {
 				}
 			}
 			if f, d := judge(p, w, r); f != "" {
+				if f == "blame" && run.Known(knownBottomUp) && deliveredLater(r.ErrToks, cfgm.FirstBad(p, oracleInput(w))) {
+					// listed finding: the Error of the first offending token IS delivered, but after Errors of
+					// later tokens, because actions run bottom-up (right-recursive @error productions)
+					run.KnownHit(knownBottomUp, "Error of the first offending token delivered after Errors of later tokens (bottom-up action order)")
+					continue
+				}
 				if f == "blame" && hasErrSugar(c.G) && r.FirstErr > cfgm.FirstBad(p, oracleInput(w)) && run.Known(knownErrSugar) {
 					// listed finding: an Error absorbed by a generated @error?/@error* helper value is
 					// dropped unreported when a later recovery pops it; excluded by construction, counted
